@@ -686,6 +686,56 @@ def decorator_slots(rep, prog, interps):
             mism.add((q, why))
             form = "all arguments by position" if k is None else "first %d by position, the others by keyword%s" % (k, " in reverse order" if rev else "")
             rep.bad("DECOR.signature", fwhere(f), "a call %s accepts (%s) is a TypeError behind its decorator: %s (wrapper at line %d)" % (f.name, form, why, line))
+    # DECOR.cache-key: a memo table indexed by hash(arguments) - hash() is not injective (hash(-1) == hash(-2), hash(1) == hash(1.0) ==
+    # hash(True)), so different arguments share one entry
+    import ast as _ast
+    decs = set()
+    for it in interps:
+        decs |= set(it.decorator_funcs)
+    for q in sorted(decs):
+        f = prog.funcs.get(q)
+        if f is None:
+            continue
+        hashed = {t.id: a.value.func.id for a in _ast.walk(f.node) if isinstance(a, _ast.Assign) and isinstance(a.value, _ast.Call) and isinstance(a.value.func, _ast.Name)
+                  and a.value.func.id in ("hash", "id") for t in a.targets if isinstance(t, _ast.Name)}
+        kind = {}
+
+        def is_hash(e):
+            if isinstance(e, _ast.Name) and e.id in hashed:
+                kind[0] = hashed[e.id]
+                return True
+            if isinstance(e, _ast.Call) and isinstance(e.func, _ast.Name) and e.func.id in ("hash", "id"):
+                kind[0] = e.func.id
+                return True
+            return False
+        for a in _ast.walk(f.node):
+            key = None
+            if isinstance(a, _ast.Subscript) and is_hash(a.slice):
+                key = a
+            elif isinstance(a, _ast.Compare) and len(a.ops) == 1 and isinstance(a.ops[0], (_ast.In, _ast.NotIn)) and is_hash(a.left):
+                key = a
+            elif isinstance(a, _ast.Call) and isinstance(a.func, _ast.Attribute) and a.func.attr in ("get", "setdefault", "pop") and a.args and is_hash(a.args[0]):
+                key = a
+            if key is not None:
+                rep.bad("DECOR.cache-key", {"file": f.module.relpath, "line": key.lineno, "function": q, "construct": _ast.unparse(key)[:100]},
+                        "results are remembered under hash(arguments): different arguments with equal hashes (-1 and -2; 1, 1.0 and True) get each other's result"
+                        if kind.get(0) == "hash" else
+                        "results are remembered under id(argument): an array that is changed in place keeps its identity, so the result computed for "
+                        "its old contents is returned for the new ones")
+                break
+    st_seen = set()
+    for it in interps:
+        read_ids = {r[0] for r in it.persistent_reads}
+        for oid, q, line, text, rel in it.persistent_writes:
+            if (q, text) in st_seen:
+                continue
+            st_seen.add((q, text))
+            w = {"file": rel, "line": line, "function": q, "construct": text}
+            if oid in read_ids:
+                rep.bad("DECOR.state", w, "a dict built once, when the function was decorated, is updated by every call and read again by the wrapper: what one call "
+                        "passes (its arguments) is still there for the next call - the result depends on the call history")
+            else:
+                rep.unk("DECOR.state", w, "a dict in the decorator's closure is updated by every call (state shared between calls): not decided")
     for it in interps:
         if not isinstance(it, Sym):
             continue
@@ -710,3 +760,35 @@ def decorator_slots(rep, prog, interps):
                         rep.bad("DECOR.slots", fwhere(f), "behind its decorator(s) %s receives the caller's `%s` as its parameter `%s` (%s)" % (f.name, t[1], slot, form))
             if calls and not any(k_[0] == q for k_ in seen):
                 rep.ok("DECOR.slots", fwhere(f), "every argument reaches the parameter it was passed for, in %d call(s) through the decorator(s)" % len(calls))
+
+
+def empty_subset_replaced(rep, prog, entries, rule="EMPTY.subset"):
+    """entries: [(qname, node-set parameter)].  `S or <default>` (the `x or default` idiom for an optional argument) applied to
+    a node set replaces the *empty* set as well - a legitimate input (is_clique(set(), A) is vacuously True, the subgraph
+    induced by no node is empty).  Decided on the symbolic terms, private helpers inlined."""
+    from ..sym import walk as _walk
+    for q, p_ in entries:
+        f = need(prog, q)
+        S = Sym(prog, inline=inline_helpers(prog, f.module.name))
+        try:
+            run_function(S, f)
+        except Inconclusive as e:
+            rep.unk(rule, fwhere(f), "symbolic evaluation left the modelled fragment: %s" % e.why)
+            continue
+        hit = None
+        for fact in S.facts:
+            terms = [v for k, v in fact.__dict__.items() if k not in ("node", "func", "kind", "qname", "root", "loops", "order")]
+            for t in terms:
+                for x in _walk(t) if isinstance(t, tuple) else ():
+                    if isinstance(x, tuple) and len(x) == 3 and x[0] == "bool" and x[1] == "or" and x[2] and x[2][0] == ("param", p_):
+                        hit = (fact, x)
+                        break
+                if hit:
+                    break
+            if hit:
+                break
+        if hit:
+            rep.bad(rule, fwhere(hit[0].func if hit[0].func is not None else f, hit[0].node),
+                    "`%s`: an empty %s is falsy and is replaced by the default as well - %s(%s=empty) no longer answers for the empty set" % (fmt(hit[1])[:60], p_, f.name, p_))
+        else:
+            rep.ok(rule, fwhere(f), "the node set %s of %s is never replaced by a default when it is empty" % (p_, f.name))
